@@ -118,6 +118,7 @@ def unpack(sequence, context, *args):
         yaql> [2, 3].unpack() -> $1 + $2
         5
     """
+    sequence = iter(sequence)
     lst = tuple(itertools.islice(sequence, len(args) + 1))
     if 0 < len(args) != len(lst):
         raise ValueError('Cannot unpack {} elements into {}'.format(
@@ -126,7 +127,7 @@ def unpack(sequence, context, *args):
         for i in range(len(lst)):
             context[args[i]] = lst[i]
     else:
-        for i, t in enumerate(sequence, 1):
+        for i, t in enumerate(itertools.chain(lst, sequence), 1):
             context[str(i)] = t
     return context
 
